@@ -74,7 +74,8 @@ class VEnum:
     def spec(self):
         rows = []
         for i, (ident, skip, _e, aliases) in enumerate(self.variants):
-            rows.append("(v %s %s)" % ("skip" if skip else "keep", " ".join(hexs(n) for n in self.names(i))))
+            kind = "skip" if skip else ("hide" if ident in self.hidden else "keep")
+            rows.append("(v %s %s)" % (kind, " ".join(hexs(n) for n in self.names(i))))
         return "(enum %s)" % " ".join(rows)
 
     def rust(self):
@@ -397,6 +398,12 @@ def build():
     # element types bool in value positions
     top("MOptLongBool", [Field("alpha", "opt", "long", "bool")])
     top("MVecLongBool", [Field("bravo_x", "vec", "long", "bool")])
+    # `Option<bool>` / `Option<Option<bool>>` are NOT flags: default_action looks at the field type (only the simple path
+    # `bool` gets SetTrue), so they take a value and are None when absent (a seeded change decided on the inner type)
+    top("MOptShortBool", [Field("alpha", "opt", "short", "bool")])
+    top("MOptoptLongBool", [Field("carol", "optopt", "long", "bool")])
+    top("ABoolVsOptBool", [Field("alpha", "bool", "long", None), Field("bravo_x", "opt", "long", "bool"),
+                           Field("carol", "optopt", "short", "bool"), Field("delta_y", "optvec", "long", "bool")])
 
     # ---- attributes
     top("ADefaults", [Field("alpha", "plain", "long", "u8", default="7"),
@@ -445,6 +452,11 @@ def build():
     in4 = inner("In4", [Field("need", "plain", "long", "u8"), Field("extra", "opt", "long", "str")])
     top("F4", [Flatten("maybe", in4, opt=True), Field("verbose", "bool", "short", None)])
     top("F5", [Flatten("maybe_mid", mid, opt=True), Field("other", "opt", "long", "u8")])
+    # an optional flatten whose members carry no default: `try_update_from` on a value that already holds Some(inner)
+    # updates the members in place (theorem C15_update_unoccurring_untouched_opt)
+    in6 = inner("In6", [Field("echo", "opt", "long", "u8"), Field("golf", "opt", "long", "u8"),
+                        Field("hotel", "vec", "long", "str")])
+    top("F6", [Field("tango", "opt", "long", "str"), Flatten("maybe", in6, opt=True)])
 
     # ---- subcommands
     in5 = inner("In5", [Field("size", "plain", "long", "u8"), Field("tags", "vec", "long", "str")])
